@@ -451,6 +451,26 @@ def run_escapes(spec, acc, api):
             if enc is not None and not (isinstance(enc, str) and urllib.parse.unquote(enc, errors='surrogatepass') == s):
                 acc.violation('urlEncode-not-reversible', f'{fn}(<string with an unpaired surrogate>) = {enc!r}', {'s': s.encode('utf-16', 'surrogatepass').hex()})
             acc.count('url_encode_checks')
+    # the same functions reached through a partial application (systemPartial binds leading arguments): every call of the partial is a
+    # call of the function with the bound arguments followed by the call's own - also after a call that passed none
+    for fn, bound, calls in (('stringIndexOf', ['abcabc', 'b'], [[], [3], [], [2.0], []]), ('arraySlice', [[1, 2, 3, 4, 5]], [[], [1], [1, 3], [], [4]]),
+                             ('arrayNew', [7], [[], [8], [], [9, 10]]), ('stringSlice', ['hello world', 2], [[], [5], [], [4]]), ('arrayJoin', [['a', 'b']], [[','], [], ['-'], [',']]),
+                             ('objectGet', [{'k': 1}, 'zz'], [[], ['dflt'], [], [None]]), ('arrayIndexOf', [[5, 6, 5, 6], 6], [[], [2], [], [1.0]])):
+        part = lib['systemPartial']([lib[fn]] + copy.deepcopy(bound), None)
+        for k, extra in enumerate(calls):
+            acc.case(('partial', fn, k), True)
+            acc.count('partial_application_calls')
+            try:
+                want = ('ok', lib[fn](copy.deepcopy(bound) + list(extra), None))
+            except Exception as exc:  # pylint: disable=broad-except
+                want = ('failed', getattr(exc, 'return_value', None))
+            try:
+                got = ('ok', part(list(extra), None))
+            except Exception as exc:  # pylint: disable=broad-except
+                got = ('failed', getattr(exc, 'return_value', None))
+            if got != want:
+                acc.violation('partial-call-differs-from-direct-call', f'call {k + 1} of systemPartial({fn}, {bound!r:.80})({extra!r}) = {got!r:.120}; the direct call gives {want!r:.120}', {'fn': fn, 'call': k})
+                break
     # wrong-typed arguments
     for fn in ('regexEscape', 'urlEncode', 'urlEncodeComponent'):
         for bad in ([], [None], [1.0], [['a']], ['a', 'b']):
